@@ -1,12 +1,14 @@
 """C19 — discovered topology is the physical one; flooding is pruned to a tree (DESIGN §5 C19).
 
 Case kinds
-  calc  : an adjacency (list of directed links in dict insertion order) -> real `_calc_spanning_tree()` vs model `calcTree`
+  calc  : an adjacency (list of directed links in dict insertion order) -> real `_calc_spanning_tree()` vs model `calcTreeL` (culling loop as written)
   hist  : a physical topology + a history of up / down / probe / tick / sweep ops under the virtual clock, through the real
           `Discovery`, `LLDPSender` and `spanning_tree` handlers with stub connections that record what they are sent
   codec : (dpid, port, hw) -> real `_create_discovery_packet(...).pack()` vs model `probeFrame`, and the real PacketIn handler's
           recovered originator vs (dpid, port)
   frame : a (foreign / damaged) LLDP frame -> what the real PacketIn handler does with it vs model `recover`
+  upd   : one real `_update_tree()` from an arbitrary `_prev`, optionally with the k-th `con.send` raising -> port_mods IN ORDER and
+          `_prev` afterwards vs model `updateTreeF`
 """
 import os, json, itertools, copy
 import common, poxenv
@@ -100,7 +102,7 @@ class C19(Check):
     driver = "drv_c19"
     theorems = ["Pox.C19.cull_loop_is_closed_form", "Pox.C19.calc_raises_iff_selfloop", "Pox.C19.tree_is_forest", "Pox.C19.tree_edge_is_bridge",
                 "Pox.C19.calc_terminates", "Pox.C19.link_events", "Pox.C19.adjacency_exact", "Pox.C19.adjacency_ends_connected",
-                "Pox.C19.flood_ports", "Pox.C19.flood_ports_forest", "Pox.C19.port_mods_are_changes", "Pox.C19.bits_are_prev", "Pox.C19.flood_bits",
+                "Pox.C19.flood_ports", "Pox.C19.flood_ports_forest", "Pox.C19.port_mods_are_changes", "Pox.C19.send_failure_recovery", "Pox.C19.bits_are_prev", "Pox.C19.flood_bits",
                 "Pox.C19.probe_roundtrip", "Pox.C19.flood_ports_defect_D20", "Pox.C19.flood_ports_defect_skip",
                 "Pox.C19.flood_ports_defect_outside_tree"]
     anchors = [("pox/openflow/discovery.py", 168, 206), ("pox/openflow/discovery.py", 322, 486),
@@ -110,7 +112,7 @@ class C19(Check):
                     "the culling loop of _calc_spanning_tree is modelled as written (dict-of-dicts as one insertion-ordered association list) and proved equal to the closed form "
                     "the other proofs use (cull_loop_is_closed_form); the iteration order of the `switches` set is an oracle argument fed from the harness",
                     "harness: stub connections / stub Timer / virtual clock; the union-find forest oracle"]
-    assumptions = ["_hold_down and _noflood_by_default are off (their defaults); con.send never raises (the `except: _prev.clear()` path is not modelled)",
+    assumptions = ["_hold_down and _noflood_by_default are off (their defaults); in histories con.send never raises (the `except: _prev.clear()` path is modelled and compared for single _update_tree() calls: kind upd, theorem send_failure_recovery)",
                    "a port's NO_FLOOD bit is what the last port_mod on the current connection said; a (re)connecting switch starts with flooding enabled on every port",
                    "cables are point to point (a port is an end of at most one cable) and join two different switches; a switch with two of its own ports cabled together makes "
                    "_calc_spanning_tree raise AssertionError (theorem calc_raises_iff_selfloop; modelled, compared, but outside the property's quantifier)",
@@ -138,8 +140,7 @@ class C19(Check):
     def extra_evidence(self):
         return {"anchored_lines_not_reachable_in_this_configuration":
                 "def lines (executed at import), discovery.py:352-356 (_eat_early_packets off), :371-381 (re-checks of what lldp.parse already enforced), "
-                ":399-400 / :445-446 (except around struct.unpack of a slice whose length was just tested), spanning_tree.py:191-199 (_hold_down off, connect_time None), "
-                ":225-227 (except around con.send): about 35 anchored lines"}
+                ":399-400 / :445-446 (except around struct.unpack of a slice whose length was just tested), spanning_tree.py:191-199 (_hold_down off, connect_time None): about 32 anchored lines"}
 
     # ------------------------------------------------------------------ setup
     def setup(self):
@@ -241,6 +242,12 @@ class C19(Check):
                 "cables": T(((1, 1), (3, 1)), ((2, 1), (4, 1)), ((1, 2), (2, 2)))}
         out.append({"kind": "hist", "topo": line, "ops": [{"k": "up", "dpid": d} for d in (1, 2, 3, 4)] +
                     rnd([((1, 1), (3, 1)), ((2, 1), (4, 1))]) + [P((1, 2), (2, 2)), P((2, 2), (1, 2))]})
+        # seeded change C19-D: line 1-2-3 plus a cable that only works 3.2 -> 1.2, discovered last: 3.2 and 1.2 must stop flooding
+        lone = {"switches": {"1": [1, 2, 3], "2": [1, 2], "3": [1, 2, 3]},
+                "cables": T(((1, 1), (2, 1)), ((2, 2), (3, 1)), ((3, 2), (1, 2)))}
+        out.append({"kind": "hist", "topo": lone, "ops": ups + rnd([((1, 1), (2, 1)), ((2, 2), (3, 1))]) + [P((3, 2), (1, 2))]})
+        # ... and discovered first
+        out.append({"kind": "hist", "topo": lone, "ops": ups + [P((3, 2), (1, 2))] + rnd([((1, 1), (2, 1)), ((2, 2), (3, 1))])})
         # C19-2: triangle, then both links of switch 2 die in one sweep: 2 leaves the tree with its port towards 3 still blocked
         out.append({"kind": "hist", "topo": tri, "ops": ups + rnd(c) + [{"k": "tick", "dt": 6000}] + rnd([c[2]]) +
                     [{"k": "tick", "dt": 6000}, {"k": "sweep"}]})
@@ -416,6 +423,21 @@ class C19(Check):
                 yield self._graph_case(4, [rng.choice(CABLE_OPTS) for _ in range(6)], rng)
         for _ in range(1200 if quick else 15000):
             yield self._history(rng)
+        # single _update_tree() calls from an arbitrary _prev, with and without a con.send that raises; port_mods compared IN ORDER
+        for _ in range(400 if quick else 6000):
+            n = rng.choice([2, 3, 4, 5])
+            g = self._graph_case(n, [rng.choice(CABLE_OPTS) for _ in range(n * (n - 1) // 2)], rng, rng.sample([1, 2, 3, 4, 5, 9, 17], n))
+            used = {}
+            for a, pa, b, pb in g["links"]:
+                used.setdefault(a, set()).add(pa); used.setdefault(b, set()).add(pb)
+            conns = {}
+            for d, ps in sorted(used.items()):
+                if rng.random() < 0.9:
+                    ports = sorted(ps) + [max(ps) + 1 + i for i in range(rng.choice([0, 1, 2]))] + ([65534] if rng.random() < 0.3 else [])
+                    rng.shuffle(ports); conns[str(d)] = ports
+            prev = [[int(d), p, rng.random() < 0.5] for d, ps in conns.items() for p in ps if rng.random() < 0.4]
+            yield {"kind": "upd", "links": g["links"], "conns": conns, "prev": prev,
+                   "fail": rng.choice([None, None, 0, 1, 2, 3, 5, 8])}
         for _ in range(400 if quick else 5000):
             yield {"kind": "codec", "dpid": rng.choice([rng.getrandbits(64), rng.getrandbits(rng.randrange(1, 65)), rng.randrange(0, 300)]),
                    "port": rng.choice([rng.getrandbits(16), rng.randrange(0, 120)])}
@@ -448,6 +470,28 @@ class C19(Check):
             return {"exc": type(e).__name__, "order": order}
         return {"tree": sorted([sw, w, p] for sw, ports in tree.items() for (w, p) in ports), "order": order,
                 "keys": list(tree.keys())}
+
+    def _impl_upd(self, case):
+        L, of = self.disc.Link, self.of
+        for l in case["links"]:
+            self.D.adjacency[L(*l)] = 0
+        sent, fail = [], case["fail"]
+        class FailCon(StubCon):
+            def send(s, m):
+                if isinstance(m, of.ofp_port_mod):
+                    if fail is not None and len(sent) == fail: raise IOError("send failed")
+                    sent.append([s.dpid, m.port_no, (m.config & of.OFPPC_NO_FLOOD) == 0])
+        for d, ports in case["conns"].items():
+            self.core.openflow._connect(FailCon(of, int(d), ports, poxenv.clock()))
+        for d, p, b in case["prev"]:
+            self.st._prev[d][p] = b
+        order = self._set_order()
+        try:
+            self.st._update_tree()
+        except Exception as e:
+            return {"exc": type(e).__name__, "order": order}
+        prev = sorted([d, p, b] for d, ps in self.st._prev.items() for p, b in ps.items() if b is not None)
+        return {"mods": sent, "prev": prev, "order": order}
 
     def _norm_ops(self, case):
         """drop ops that cannot happen (PacketIn from a switch that is not connected, ConnectionUp of a connected switch, ...)"""
@@ -567,6 +611,9 @@ class C19(Check):
         k = case["kind"]
         if k == "calc":
             return {"op": "calc", "adj": case["links"], "order": obs["order"]}
+        if k == "upd":
+            return {"op": "update", "adj": case["links"], "order": obs["order"], "conns": [[int(d), ps] for d, ps in case["conns"].items()],
+                    "prev": case["prev"], "fail": case["fail"]}
         if k == "codec":
             return {"op": "pack", "dpid": case["dpid"], "port": case["port"], "hw": obs["hw"], "ttl": 120}
         if k == "hist":
@@ -588,6 +635,8 @@ class C19(Check):
             return {"exc": obs["exc"]} if "exc" in obs else {"tree": obs["tree"], "keys": obs["keys"]}
         if k == "codec":
             return {"frame": obs["frame"]}
+        if k == "upd":
+            return {"exc": obs["exc"]} if "exc" in obs else {"mods": obs["mods"], "prev": obs["prev"]}
         if k == "hist":
             return {"steps": [{"events": s["events"], "mods": s["mods"]} for s in obs["steps"]], "adjacency": obs["adjacency"]}
         return obs
@@ -601,6 +650,8 @@ class C19(Check):
                     "keys": resp["keys"]}
         if k == "codec":
             return {"frame": resp["frame"]}
+        if k == "upd":
+            return {"exc": resp["exc"]} if "exc" in resp else {"mods": resp["mods"], "prev": sorted(resp["prev"])}
         if k == "hist":
             return {"steps": [{"events": o["events"], "mods": sorted(o["mods"])} for o in resp["outs"]], "adjacency": resp["adjacency"]}
         return resp
@@ -608,6 +659,9 @@ class C19(Check):
     # ------------------------------------------------------------------ the property, on the implementation's observables
     def oracle(self, case, obs):
         return getattr(self, "_oracle_" + case["kind"])(case, obs)
+
+    def _oracle_upd(self, case, obs):
+        return None                                  # one _update_tree() from an arbitrary _prev: correspondence only
 
     def _oracle_frame(self, case, obs):
         return None                                  # the property says nothing about foreign LLDP; correspondence only
@@ -690,6 +744,14 @@ class C19(Check):
                 if on(e1): enabled.append((e1, e2))
             f = forest_check(adj, enabled, sorted({a for a, b, c, d in adj} | {c for a, b, c, d in adj}))
             if f: return "flood: after %s: enabled links are %s" % (op["k"], f)
+            # the statement of flood_ports / flood_bits for every connected switch of the tree: a port that is an endpoint of a known
+            # link floods only if it is a tree port -- an endpoint of one-way links only is never one
+            bidirports = {e for c in cables for e in c}
+            for d in st["snap"]["up"]:
+                if d not in treesw: continue
+                for p in sw[d]:
+                    if p < OFPP_MAX and (d, p) in linkports and (d, p) not in bidirports and on((d, p)):
+                        return "flood: after %s: port %d.%d of a tree switch is an end of a one-way link only and still floods" % (op["k"], d, p)
             for d in st["snap"]["up"]:
                 for p in sw[d]:
                     if p < OFPP_MAX and (d, p) not in linkports and not on((d, p)):
@@ -702,7 +764,8 @@ class C19(Check):
         if failure.startswith("flood: after"):
             k = failure.split()[2].rstrip(":")
             what = ("half-enabled" if "one end only" in failure else "cycle" if failure.endswith("cycle") else
-                    "not-spanning" if failure.endswith("not-spanning") else "host-port-noflood")
+                    "not-spanning" if failure.endswith("not-spanning") else
+                    "oneway-port-floods" if "one-way link only" in failure else "host-port-noflood")
             return "flood:after-%s:%s" % (k, what)
         if failure.startswith("codec:"):
             return "codec:" + ("raised" if "raised" in failure else "mismatch")
